@@ -1,69 +1,101 @@
 package main
 
+// Per-property swarm profiles: which actors are emphasised, which differential variants and
+// audits run, and what the evidence file says about what a non-trivial case is.
+
 func baseProfile(name string) *Profile {
 	return &Profile{
 		Name: name, Own: map[string]bool{name: true},
 		StepsMin: 25, StepsMax: 70,
-		W: map[string]int{"send": 30, "sendout": 4, "deliver": 30, "ack": 8, "timeout": 4, "block": 25, "restart": 1, "dust": 4, "orbadmin": 6, "envadmin": 3, "byz": 2, "impostor": 1, "checkpoint": 0},
-		ClassW:  map[string]int{"canon": 60, "refuse": 10, "free": 6, "plain": 8, "nearmiss": 4, "exotic": 3},
+		W:       map[string]int{"send": 30, "sendout": 4, "sendodd": 1, "deliver": 30, "ack": 8, "timeout": 4, "block": 25, "restart": 1, "dust": 4, "orbadmin": 6, "envadmin": 3, "byz": 2, "impostor": 1, "checkpoint": 0},
+		ClassW:  map[string]int{"canon": 60, "refuse": 10, "free": 6, "plain": 8, "nearmiss": 4, "exotic": 3, "multierr": 1},
 		RouteW:  []int{3, 3, 3},
 		FeeW:    []int{3, 3, 2, 1, 1},
 		ScaleW:  []int{5, 2, 2, 1},
 		PassW:   []int{6, 2, 2, 1},
 		GasCutP: 0.06, BatchP: 0.15, DupP: 0.08, TimeoutP: 0.1, SingleTxP: 0.5,
 		StoreDigests: true,
+		EvidenceRule: "each evaluation is one seeded simulated run: a generated schedule of 25-70 actor events (remote users, relayers, consensus, orbiter authority, downstream admins, dust depositor, byzantine chain, operator) executed against the real application, followed by a drain (faults healed, everything relayed, one probe per route). A run is non-trivial when at least one rule of this property was actually evaluated in it; distinct_nontrivial counts distinct abstract states at packet-delivery instants (paused-protocol set, paused-pair set, paused-action set, limit bucket, number of statistics keys, dust present, environment-health vector, route, receiver encoding).",
 	}
 }
 
 func profileFor(name string) *Profile {
 	p := baseProfile(name)
 	switch name {
+	case "C01":
+		p.ClassW["nearmiss"], p.ClassW["canon"] = 8, 70
+		p.W["dust"], p.W["envadmin"] = 8, 5
+	case "C02":
+		p.ScaleW = []int{4, 2, 3, 3}
+		p.W["dust"] = 8
+	case "C04":
+		p.ClassW = map[string]int{"canon": 70, "refuse": 30, "free": 2, "plain": 2, "nearmiss": 0, "exotic": 4, "multierr": 0}
+		p.RefuseKinds = []string{"C04"}
+		p.FeeW = []int{1, 3, 4, 3, 4}
+		p.ScaleW = []int{3, 5, 3, 3}
+		p.W["orbadmin"], p.W["envadmin"], p.W["byz"] = 2, 1, 0
+	case "C05":
+		p.SpecialEvery = 2
+		p.Special, p.SpecialReplay = specialC05, replayC05
+		p.NonTrivialCounters = []string{"rule:C05.recorded-request"}
+		p.RefuseKinds = []string{"C05"}
+		p.ClassW["refuse"] = 20
+		p.Assumptions = []string{"every second run is a mode-B run: a second orbiter keeper built from the public constructors on the same store with recording wrappers around CCTP, Hyperlane and the bank message server (the wiring of depinject.go is re-stated by the harness there and is exercised by the mode-A runs)"}
+	case "C05B":
+		p.Special, p.SpecialReplay = specialC05, replayC05
+		p.Own = map[string]bool{"C05": true}
+	case "C06":
+		p.Special, p.SpecialReplay = specialC06, replayC06
+		p.EvidenceRule = "each evaluation is one mode-B world (interposed keeper with the fee controller and a denomination-changing test action registered under ACTION_SWAP) in which ten drawn action programs ([fee], [swap], [fee,swap], [swap,fee], repeated identifiers; drawn rates, amounts, routes, dust) are executed on branches of the committed state and compared with the model's fold; distinct_nontrivial counts distinct (action order, denominations, route, outcome) combinations."
+		p.Assumptions = []string{"mode B re-states about 40 lines of wiring; the swap action is harness code using the real bank keeper"}
 	case "C07":
 		p.Shadows = []string{"nomw"}
-		p.ClassW = map[string]int{"canon": 15, "refuse": 3, "free": 5, "plain": 40, "nearmiss": 25, "exotic": 2}
-		p.W["sendout"] = 14
-		p.W["byz"] = 8
+		p.ClassW = map[string]int{"canon": 15, "refuse": 3, "free": 5, "plain": 40, "nearmiss": 25, "exotic": 2, "multierr": 2}
+		p.W["sendout"], p.W["byz"], p.W["orbadmin"] = 14, 10, 10
+	case "C08":
+		p.Checkpoint = []string{"pausequeries"}
+		p.W["checkpoint"], p.W["orbadmin"] = 3, 18
+		p.Shadows = []string{"pausediff"}
+	case "C09":
+		p.Checkpoint = []string{"pausequeries"}
+		p.W["checkpoint"], p.W["orbadmin"] = 3, 18
+		p.Shadows = []string{"actiondiff"}
+		p.FeeW = []int{3, 3, 2, 1, 1}
+	case "C10":
+		p.Checkpoint = []string{"impostor"}
+		p.W["checkpoint"], p.W["impostor"], p.W["orbadmin"] = 3, 8, 10
+		p.StepsMin, p.StepsMax = 15, 40
+		p.EvidenceRule = "each evaluation is one simulated run in which impostor accounts send real signed admin transactions and, at checkpoints, every Msg RPC of the module (enumerated from the protobuf service descriptors linked into the binary and filtered by the app's MsgServiceRouter) is called on a branch with signers that do not denote the authority (other accounts, module accounts, empty, malformed, fragments and paddings of the authority); distinct_nontrivial counts distinct (RPC, signer class, body kind) combinations plus abstract states."
 	case "C11":
 		p.Shadows = []string{"nodust", "moredust"}
 		p.W["dust"] = 16
-	case "C08":
-		p.Checkpoint = []string{"pausequeries"}
-		p.W["checkpoint"] = 3
-		p.Shadows = []string{"pausediff"}
-		p.W["orbadmin"] = 18
-	case "C09":
-		p.Checkpoint = []string{"pausequeries"}
-		p.W["checkpoint"] = 3
-		p.Shadows = []string{"actiondiff"}
-		p.W["orbadmin"] = 18
-	case "C18":
-		p.Checkpoint = []string{"pausequeries"}
-		p.W["checkpoint"] = 2
-		p.Shadows = []string{"limitup"}
-		p.W["orbadmin"] = 14
-		p.PassW = []int{2, 3, 4, 3}
+	case "C12":
+		p.SpecialEvery = 5
+		p.Special, p.SpecialReplay = specialC06, replayC06
+		p.NonTrivialCounters = []string{"rule:C12.two-entries"}
+		p.W["restart"] = 3
 	case "C13":
 		p.Checkpoint = []string{"queries"}
 		p.W["checkpoint"] = 3
 		p.W["send"], p.W["deliver"] = 40, 40
 		p.W["envadmin"], p.W["byz"] = 1, 0
-		p.ClassW = map[string]int{"canon": 90, "refuse": 3, "free": 2, "plain": 3, "nearmiss": 1, "exotic": 1}
+		p.ClassW = map[string]int{"canon": 90, "refuse": 3, "free": 2, "plain": 3, "nearmiss": 1, "exotic": 1, "multierr": 0}
 		p.StepsMin, p.StepsMax = 40, 90
+	case "C14":
+		p.ClassW = map[string]int{"canon": 25, "refuse": 20, "free": 40, "plain": 4, "nearmiss": 4, "exotic": 25, "multierr": 8}
+		p.W["byz"], p.W["envadmin"], p.W["dust"] = 14, 4, 6
+		p.ScaleW = []int{3, 2, 3, 3}
+		p.BatchP = 0.3
+	case "C16":
+		p.W["sendodd"], p.W["byz"], p.W["sendout"] = 14, 10, 8
 	case "C17":
 		p.Checkpoint = []string{"genesis"}
-		p.W["checkpoint"] = 2
-		p.W["orbadmin"] = 14
-	case "C10":
-		p.Checkpoint = []string{"impostor"}
-		p.W["checkpoint"] = 3
-		p.W["impostor"] = 8
-		p.W["orbadmin"] = 10
-		p.StepsMin, p.StepsMax = 15, 40
-	case "C20":
-		p.Checkpoint = []string{"ids"}
-		p.W["checkpoint"] = 3
-		p.W["orbadmin"] = 10
-		p.StepsMin, p.StepsMax = 15, 40
+		p.W["checkpoint"], p.W["orbadmin"] = 2, 14
+	case "C18":
+		p.Checkpoint = []string{"pausequeries"}
+		p.W["checkpoint"], p.W["orbadmin"] = 2, 14
+		p.Shadows = []string{"limitup"}
+		p.PassW = []int{2, 3, 4, 3}
 	case "C19":
 		p.Special = specialC19
 		p.TraceCheck = traceCheckC19
@@ -71,17 +103,30 @@ func profileFor(name string) *Profile {
 		p.ClassW = map[string]int{"canon": 30, "refuse": 12, "free": 14, "plain": 6, "nearmiss": 4, "exotic": 6, "multierr": 28}
 		p.W["byz"] = 6
 		p.StoreDigests = false
+		p.NonTrivialCounters = []string{"rule:C19.replay-twin"}
+		p.EvidenceRule = "each evaluation is one simulated run executed twice in-process (generation, then replay of the recorded trace on a second application instance); one run in eight is executed again in two further OS processes (GOMAXPROCS 1 and 7, fresh runtime hash seeds). Compared per block: AppHash, tx codes and gas, event lists in order (including acknowledgement bytes), and at the end exported genesis and all balances. distinct_nontrivial counts distinct abstract states at delivery instants."
+	case "C20":
+		p.Checkpoint = []string{"ids"}
+		p.W["checkpoint"], p.W["orbadmin"] = 3, 10
+		p.StepsMin, p.StepsMax = 15, 40
 	case "C03":
+		p.SpecialEvery = 2
+		p.W["envadmin"] = 14
+		p.GasCutP = 0.15
+		p.NonTrivialCounters = []string{"injected_executions", "rule:C03.refund"}
 		p.Special, p.SpecialReplay = specialC03, replayC03
-		p.Own["C14"] = false
 		p.Level = "fault_enumeration"
-	case "C05B":
-		p.Special, p.SpecialReplay = specialC05, replayC05
-		p.Own = map[string]bool{"C05": true}
-	case "C06":
-		p.Special, p.SpecialReplay = specialC06, replayC06
+		p.EvidenceRule = "each evaluation is one mode-B world with one drawn known-good scenario (route x fee shape x dust x passthrough); its dynamic call sequence at the interposed seams (bank sends, dust sweep, wrapped ICS-20 application, CCTP / Hyperlane / internal message servers, Hyperlane token query, event manager) is recorded by a fault-free dry run, then EVERY single call is failed (before and after its side effects) and EVERY pair of calls, each on a fresh branch; one drawn fault per scenario is also delivered for real through IBC core and its acknowledgement relayed back. Exhaustive per scenario, sampled over scenarios. distinct_nontrivial counts distinct (route, failing site and occurrence, before/after, single/pair) combinations that actually fired."
+		p.Assumptions = []string{"mode B re-states about 40 lines of wiring (the real wiring is exercised by the mode-A natural-failure runs of C01/C02/C12)", "the statistics update has no interposable call and is never faulted (the code documents it as deliberately swallowed)"}
+	case "C03A":
+		// mode-A part of C03: natural failures (blacklists, pauses, burn limit, missing messenger/router), gas cuts, restarts
+		p.Own = map[string]bool{"C03": true}
+		p.W["envadmin"] = 14
+		p.GasCutP = 0.15
 	case "ALL":
 		p.Shadows = []string{"nomw", "nodust", "moredust", "pausediff", "actiondiff", "limitup"}
+		p.Checkpoint = []string{"queries", "pausequeries", "genesis", "impostor", "ids"}
+		p.W["checkpoint"] = 2
 	}
 	return p
 }
